@@ -607,7 +607,12 @@ class Session(object):
         self.lost_before_ready = False
 
 
+_BLOCKS_EVER = []       # blocks larger than a nonce handed out by urandom in earlier runs of this process (see (f))
+
+
 class AuthRun(object):
+    target = 2              # sessions per run
+
     def __init__(self, sim):
         self.sim = sim
         self.ch = sim.ch
@@ -643,6 +648,9 @@ class AuthRun(object):
         # the call index is mixed in: what the simulator hands out is fresh by construction
         v = expand(b'urandom%d' % len(self.handed), seed, n)
         self.handed.append(v)
+        if n > 32:
+            _BLOCKS_EVER.append(v)
+            del _BLOCKS_EVER[:-16]
         self.sim.log('urandom', n, hexu(v[:4]))
         return v
 
@@ -810,7 +818,9 @@ class AuthRun(object):
             if nonce is None:
                 sim.fail('C04.authchallenge-malformed', 'session %d wrote %r' % (s.idx, line[:120]))
             # (f) the nonce is what urandom handed out, and is not reused
-            if nonce not in self.handed:
+            # (a slice of a larger block the library fetched - in this run or, kept in a module of the library, in an
+            # earlier run of this worker - is as good as a call of its own)
+            if nonce is not None and not any(nonce in v for v in self.handed) and not any(nonce in v for v in _BLOCKS_EVER):
                 sim.fail('C04.client-nonce-not-from-urandom',
                          'session %d: client nonce %s.. is none of the %d values handed out by os.urandom' % (
                              s.idx, hexu(nonce[:8]), len(self.handed)))
@@ -1030,6 +1040,10 @@ class AuthRun(object):
                 acts.append((3, 'connect-second', self.start_session))
             elif self.settled(first) or first.conn.client_gone:
                 acts.append((6, 'connect-second', self.start_session))
+        elif len(self.sessions) < self.target:
+            last = self.sessions[-1]
+            if self.settled(last) or last.conn.client_gone:
+                acts.append((6, 'connect-next', self.start_session))
         return acts
 
     def do_cut(self, s):
@@ -1156,6 +1170,13 @@ class AuthRun(object):
             else:
                 self.start_session()
             budget = self.P.get('max_steps', 6000)
+            if (not self.connect_mode and 'SAFECOOKIE' in cfg.methods and cfg.cookiefile_present and cfg.cookie_file_ok
+                    and self.ch.chance(1, 8, 'manysessions')):
+                # a long-lived application: well over a hundred authenticated connections to the same Tor, one after another
+                self.target = 130 + self.ch.draw(12, 'nmany')
+                self.interleave = False
+                budget *= 40
+                sim.probe('more-than-128-sessions')
             n = 0
             while n < budget:
                 if not sim.step():
